@@ -496,14 +496,20 @@ def canonicalise(tree: ast.Module) -> ast.Module:
     changed |= _positional_self_calls(tree)
     changed |= _augment(tree)
     changed |= _drop_self_assignments(tree)
-    if os.environ.get("POLARLINT_NO_HELPER_INLINE") != "1":
+    for _round in range(2):
+        # locals first (aliases, copies, returned temporaries): they turn more helpers into one-expression helpers; then the helpers;
+        # a second round folds what the inlined expressions brought with them
         for fn in _functions(tree):
-            changed |= _inline_return_temps(fn)          # r = e; return r  makes more helpers one-expression helpers
-        changed |= _inline_trivial_helpers(tree)
-    for fn in _functions(tree):
-        changed |= _propagate_copies(fn)
-        changed |= _inline_field_aliases(fn)
-        changed |= _inline_return_temps(fn)
+            changed |= _propagate_copies(fn)
+            changed |= _inline_field_aliases(fn)
+            changed |= _inline_return_temps(fn)
+        # (a) leaves `pass` where the alias was: drop it so that `pass; return e` is a one-expression body
+        for fn in _functions(tree):
+            if len(fn.body) > 1 and any(isinstance(st, ast.Pass) for st in fn.body):
+                fn.body = [st for st in fn.body if not isinstance(st, ast.Pass)] or [ast.Pass()]
+        if os.environ.get("POLARLINT_NO_HELPER_INLINE") == "1" or not _inline_trivial_helpers(tree):
+            break
+        changed = True
     if os.environ.get("POLARLINT_NO_IFEXP_DESUGAR") != "1":
         for _ in range(3):            # nested conditional expressions
             if not _desugar_ifexp_statements(tree):
